@@ -59,6 +59,12 @@ ASSUMPTIONS = [
     "only if that operation was read-only",
     "verbs removed in 'verbs-off' mode are only those for which the client documents a fallback (UnknownSmartMethod handler)",
     "a socket timeout or a server thread that does not join is counted as inconclusive for that case, never a verdict",
+    "branch.conf is cached per Branch object for its whole life (locally and remotely): all config traffic of a branch goes "
+    "through one dedicated handle and the other handles are reopened after a config / parent change",
+    "stacked branches are not driven (repository verbs run without fallbacks on the server: C08's subject); format-5 (knit) "
+    "branches are not sent set_parent / config operations (local quirks of that format); get_rev_id's two out-of-range "
+    "errors (NoSuchRevision / RevnoOutOfBounds) are treated alike, as every caller does; gather_stats 'firstrev' is compared only "
+    "for linear ancestries (it is the last element of an unordered ancestry walk otherwise)",
 ]
 
 FORMATS_Q = ["2a", "2a", "2a", "pack-0.92", "1.14-rich-root", "1.9"]
